@@ -149,7 +149,8 @@ def _snapshot(e, params, alias, helpers=None, depth=0):
     if isinstance(e, ast.Constant):
         return True
     if isinstance(e, (ast.Tuple,)):
-        return all(_snapshot(x, params, alias, helpers, depth) for x in e.elts)
+        # a component that is a bare parameter must be hashable to serve in a dictionary key: an immutable value, not an array
+        return all(_snapshot(x, params, alias, helpers, depth) or (isinstance(x, ast.Name) and x.id in params and x.id not in alias) for x in e.elts)
     if isinstance(e, ast.Call):
         nm = e.func.attr if isinstance(e.func, ast.Attribute) else (e.func.id if isinstance(e.func, ast.Name) else None)
         if nm == 'astype' and any(k.arg == 'copy' for k in e.keywords):
